@@ -311,10 +311,20 @@ def carver_config(rng, kind, hostile=False, max_n_mod_hi=5):
         cfg["min_freq_mod"] = pick(rng, [0.02, 0.04, 0.05])
     else:
         cfg["min_freq_mod"] = pick(rng, [0.2, 0.25, 0.3])
+    tame(cfg)
     if kind == "continuous":
         cfg["sort_by"] = "kruskal"
     else:
         cfg["sort_by"] = pick(rng, ["tschuprowt", "cramerv"])
+    return cfg
+
+
+def tame(cfg, limit=1600):
+    """Keeps the number of candidate groupings per feature bounded (cost of a fit ~ number of candidates)."""
+    import math
+    k = int(round(1 / cfg["min_freq"])) + 1
+    while cfg["max_n_mod"] > 2 and sum(math.comb(k - 1, g - 1) for g in range(2, cfg["max_n_mod"] + 1)) > limit:
+        cfg["max_n_mod"] -= 1
     return cfg
 
 
@@ -331,7 +341,7 @@ def index_for(rng, n, style=None):
 
 
 def single_feature_case(rng, ftype=None, kind=None, n=None, exact=True, with_dev=None, nan_share=None, k=None,
-                        quant_flavour=None, hostile_names=False, dev_mode=None, max_n_mod_hi=5, min_freq_choices=None):
+                        quant_flavour=None, hostile_names=False, dev_mode=None, max_n_mod_hi=5, min_freq_choices=None, round_total=False):
     """One feature 'f' whose target is built from the feature's latent buckets (ties by construction)."""
     c = Case()
     c.kind = kind or pick(rng, ["binary", "binary", "continuous"])
@@ -345,10 +355,21 @@ def single_feature_case(rng, ftype=None, kind=None, n=None, exact=True, with_dev
     unit = pick(rng, [5, 10, 10, 20]) if exact else 1
     w = rng.dirichlet(np.ones(k) * pick(rng, [1.0, 2.0, 5.0]))
     sizes = np.maximum(1, np.round(w * n / unit)).astype(int) * unit
+    if round_total:
+        # total forced to a round number so that groups sit exactly on min_freq_mod bounds (0.1 of 200 rows...)
+        target = int(pick(rng, [100, 200, 400]))
+        j = int(np.argmax(sizes))
+        rest = int(sizes.sum() - sizes[j])
+        if target - rest >= unit:
+            sizes[j] = target - rest
     codes = np.repeat(np.arange(k), sizes)
     rng.shuffle(codes)
     n = len(codes)
     nan_mask = rng.random(n) < nan_share if nan_share > 0 else np.zeros(n, bool)
+    if round_total and nan_share > 0:
+        # exact NaN count as well
+        nan_mask = np.zeros(n, bool)
+        nan_mask[rng.choice(n, int(round(nan_share * n)), replace=False)] = True
     if nan_mask.all():
         nan_mask[0] = False
     lat = codes.copy()
